@@ -249,7 +249,7 @@ def pathLoop (canon : Issuer β) (chosen : Str) :
       match canon.getIfKnown related with
       | some id => (path ++ [0x5f, 0x3a] ++ id, ic, recl)
       | none =>
-        let recl := match ic.getIfKnown related with | some _ => recl | none => recl ++ [related]
+        let recl := if (ic.getIfKnown related).isNone then recl ++ [related] else recl
         let r := ic.get related
         (path ++ [0x5f, 0x3a] ++ r.1, r.2, recl)
     if prune chosen st.1 then none else pathLoop canon chosen rest st
